@@ -79,24 +79,44 @@ theorem proto_match_spec (tol : Rat) (P Q : Occ) :
       else .ok (Spec.transEquiv tol P Q) := protoMatch_eq tol P Q
 
 /-- `first_n_three_layer_P` = three-layer precision on the first `n` estimated patterns
-    (and the 3-tuple of zeros on empty input, as the code returns it). -/
+    (the scalar 0 on empty input). -/
 theorem first_n_three_layer_spec (ref est : Pats) (n : Int) :
     firstNThreeLayerP ref est n =
       if (ref ++ est).any List.isEmpty then .error .valueError
-      else if isZero ref est then .ok (.triple 0 0 0)
-      else (threeLayerFPR ref (firstN est n)).map fun t => .scalar t.2.1 :=
+      else if isZero ref est then .ok 0
+      else (threeLayerFPR ref (firstN est n)).map fun t => t.2.1 :=
   firstNThreeLayerP_eq ref est n
 
 /-- `first_n_target_proportion_R` = establishment recall on the first `n` estimated patterns. -/
 theorem first_n_target_proportion_spec (ref est : Pats) (n : Int) :
     firstNTargetProportionR ref est n =
       if (ref ++ est).any List.isEmpty then .error .valueError
-      else if isZero ref est then .ok (.triple 0 0 0)
-      else (establishmentFPR ref (firstN est n) cardName).map fun t => .scalar t.2.2 :=
+      else if isZero ref est then .ok 0
+      else (establishmentFPR ref (firstN est n) cardName).map fun t => t.2.2 :=
   firstNTargetProportionR_eq ref est n
 
 /-- `estimated_patterns[:min(len, n)]` keeps the first `n` patterns for `0 ≤ n`. -/
 theorem first_n_prefix (est : Pats) (n : Nat) : firstN est (n : Int) = est.take n := firstN_nat est n
+
+/-- `evaluate` computes its two occurrence entries with the thresholds 0.5 and 0.75 it forces under the
+    parameter's real name `thres`: the bundle is the seven documented calls in order, and a `thres` supplied by
+    the caller reaches no metric. -/
+theorem evaluate_spec (ref est : Pats) (tol thres : Option Rat) (n : Option Int) :
+    evaluate ref est tol thres none n = (do
+      let s ← standardFPR ref est (tol.getD defaultTol)
+      let e ← establishmentFPR ref est cardName
+      let o5 ← occurrenceFPR ref est (1 / 2) cardName
+      let o75 ← occurrenceFPR ref est (3 / 4) cardName
+      let t ← threeLayerFPR ref est
+      let ffp ← firstNThreeLayerP ref est (n.getD defaultN)
+      let fftp ← firstNTargetProportionR ref est (n.getD defaultN)
+      return [("F", s.1), ("P", s.2.1), ("R", s.2.2), ("F_est", e.1), ("P_est", e.2.1), ("R_est", e.2.2),
+              ("F_occ.5", o5.1), ("P_occ.5", o5.2.1), ("R_occ.5", o5.2.2),
+              ("F_occ.75", o75.1), ("P_occ.75", o75.2.1), ("R_occ.75", o75.2.2),
+              ("F_3", t.1), ("P_3", t.2.1), ("R_3", t.2.2), ("FFP", ffp), ("FFTP_est", fftp)]) := rfl
+
+theorem evaluate_ignores_thres (ref est : Pats) (tol thres : Option Rat) (metric : Option String) (n : Option Int) :
+    evaluate ref est tol thres metric n = evaluate ref est tol none metric n := rfl
 
 /-! non-vacuity: concrete values of the definitions (the second reference pattern is only half found) -/
 def exRef : Pats := [[[(0, 60), (1, 62)]], [[(1/2, 61), (3/2, 63)], [(2, 61)]]]
@@ -110,8 +130,11 @@ example : threeLayerFPR exRef exEst = .ok (1/2, 1/2, 1/2) ∧ Spec.threeLayer ex
   decide +kernel
 example : standardFPR exRef exEst = .ok (1, 1, 1) ∧ Spec.standard defaultTol exRef exEst = (1, 1, 1) := by
   decide +kernel
-example : firstNThreeLayerP exRef exEst 1 = .ok (.scalar (2/3)) ∧
-    firstNTargetProportionR exRef exEst 1 = .ok (.scalar (1/2)) := by decide +kernel
+example : firstNThreeLayerP exRef exEst 1 = .ok (2/3) ∧ firstNTargetProportionR exRef exEst 1 = .ok (1/2) ∧
+    firstNThreeLayerP [] exEst 5 = .ok 0 ∧ firstNTargetProportionR exRef [] 5 = .ok 0 := by decide +kernel
+/-- the two occurrence entries of `evaluate` really use different thresholds -/
+example : (evaluate exRef exEst none none none none).map (fun kv => (kv.lookup "R_occ.5", kv.lookup "R_occ.75")) =
+    .ok (some (5/8), some 1) := by decide +kernel
 example : cardScore [(0, 60), (1, 62), (2, 64)] [(1, 62), (2, 64)] = .ok (2/3) ∧
     cardScore [] [] = .error .zeroDivision := by decide +kernel
 
